@@ -70,12 +70,24 @@ func (p *Path) binop(fr *frame, instr ssa.Instruction, op token.Token, t types.T
 		case SFP:
 			switch op {
 			case token.ADD:
+				if p.cfg.FPAbstract["add"] && !(xv.isConst && yv.isConst) {
+					return p.newFPInput("fpabs.add")
+				}
 				return ts.FPBin("fp.add", xv, yv)
 			case token.SUB:
+				if p.cfg.FPAbstract["sub"] && !(xv.isConst && yv.isConst) {
+					return p.newFPInput("fpabs.sub")
+				}
 				return ts.FPBin("fp.sub", xv, yv)
 			case token.MUL:
+				if p.cfg.FPAbstract["mul"] && !(xv.isConst && yv.isConst) {
+					return p.newFPInput("fpabs.mul")
+				}
 				return ts.FPBin("fp.mul", xv, yv)
 			case token.QUO:
+				if p.cfg.FPAbstract["div"] && !(xv.isConst && yv.isConst) {
+					return p.newFPInput("fpabs.div")
+				}
 				return ts.FPBin("fp.div", xv, yv)
 			case token.LSS:
 				return ts.FPCmp("fp.lt", xv, yv)
